@@ -7,6 +7,7 @@ Model/Glob.lean (tied to the crate by the glob.* ops); the theorems below are
 about that model and about pkgsrc-rs's own dispatch and shortcut around it.
 -/
 import PkgsrcVerif.Lemmas.Glob
+import PkgsrcVerif.Lemmas.GlobRaw
 import PkgsrcVerif.Lemmas.Quick
 import PkgsrcVerif.Props.C02
 open M S L
@@ -120,6 +121,35 @@ theorem C05_quick_inert (pat : Pattern) (p n : Str) (hp : patternNew p = .ok pat
         | a :: b :: r =>
           by_cases ha : isSimpleChar a = true <;> by_cases hb : isSimpleChar b = true <;>
             simp [quickPkgMatch, ha, hb]
+
+/-- **A glob pattern matches exactly when the whole name matches it as a shell glob.**
+    For every pattern text without `**` and every name: the `glob` crate's compiler (as
+    modelled) accepts the pattern exactly when every '[' opens a closed, non-empty set — a
+    malformed glob is reported at compile time — and then its matcher answers exactly the
+    statement's raw-text semantics ('*' any run, '?' one character, '[set]' / '[!set]' with
+    ranges, everything else literal, case-sensitive, whole name). -/
+theorem C05_glob_is_shell_glob (p n : Str) (hnd : S.noDoubleStar p = true) :
+    (S.globWF (p.length + 1) p = false → ∃ e, globNew p = .error e) ∧
+    (S.globWF (p.length + 1) p = true →
+      ∃ ts, globNew p = .ok ts ∧ globMatches ts n = S.globMatches p n) := by
+  have hw := tokenize_isSome_iff_wf (p.length + 1) p (by omega)
+  obtain ⟨h1, h2⟩ := globLoop_tokenize (p.length + 1) p 0 none [] (by omega) hnd
+  constructor
+  · intro hf
+    rw [hf] at hw
+    cases ht : tokenize (p.length + 1) p with
+    | none => exact h2 ht
+    | some ts => simp [ht] at hw
+  · intro ht
+    rw [ht] at hw
+    cases htk : tokenize (p.length + 1) p with
+    | none => simp [htk] at hw
+    | some ts =>
+      refine ⟨ts, by simpa [globNew] using h1 ts htk, ?_⟩
+      obtain ⟨hnr, hsem⟩ := tokenize_sem (p.length + 1) p ts htk
+      apply Bool.eq_iff_iff.mpr
+      rw [C05_matcher_decides_relation ts hnr n]
+      exact hsem n
 
 /-- non-vacuity: the token list of `foo-[0-9]*` has no `**` and matches foo-1 declaratively -/
 example : GM [.char 'f', .within [.range '0' '9'], .anySeq] ['f', '1', 'x'] :=
